@@ -483,7 +483,7 @@ def xstack_effect(opcode, opc, oparg: int = 0, jump=None):
         "BUILD_TUPLE",
     ) and version_tuple >= (3, 12):
         return 1 - oparg
-    elif opname in ("BUILD_SLICE") and version_tuple <= (2, 7):
+    elif opname == "BUILD_SLICE":
         return -2 if oparg == 3 else -1
     elif opname == "LOAD_ATTR" and version_tuple >= (3, 12):
         return 1 if oparg & 1 else 0
